@@ -16,6 +16,8 @@ RULE = (
 ASSUMPTIONS = ["all experiments of one component are given in one unit", "R = 8.314462"]
 EPS = 2.0**-52
 
+ANCHORS = [('membrane/membrane.py', 'activation_energy, c = numpy.linalg.lstsq', 'activation-energy regression')]
+
 
 def shards(tier, seed):
     n = {"quick": 1200, "thorough": 100000}[tier]
